@@ -23,9 +23,11 @@ def error_codes_reachable(db, body, starts):
 
 def rule_r1(chk, db):
     """verify-before-commit: no client rejection after FileWriter::done succeeded"""
-    sites = [(b, bi, t) for b, bi, t in db.callers_of(DONE) if b.crate == "s3s_fs"]
-    if not sites:
-        sites = [(b, bi, t) for b in fscore.fs_bodies(db) for bi, t in b.calls() if short(callee_def(t)) == "done" and "FileWriter" in callee_def(t)]
+    # every backend method is studied with its helpers inlined: a commit inside a shared helper is a commit of each method that uses it
+    from . import c18
+    from ..roles import Roles
+    methods = c18.s3_methods(db, Roles(db))
+    sites = [(b, bi, t) for _, b in sorted(methods.items()) for bi, t in b.calls() if short(callee_def(t)) == "done" and "FileWriter" in callee_def(t)]
     chk.floor("R1", len(sites), 4, "FileWriter::done call sites")
     for b, bi, t in sites:
         root = db.root_of(b)
@@ -81,8 +83,11 @@ def rule_r3(chk, db, conf):
         rv = st["rv"]
         if rv["k"] == "agg" and rv.get("adt", "").endswith("::FileWriter"):
             m = dict(zip(rv["fields"], rv["ops"]))
-            c = flow.const_of(prep, m["clean_tmp"])
-            chk.verdict(c is not None and c.get("v") == "1", "R3", "clean_tmp-initially-true", prep.loc(bi), "a new FileWriter does not start with clean_tmp = true")
+            armed = cleanup_flag(db)
+            v0 = _state_value(prep, m.get(armed[0])) if armed else None
+            chk.verdict(bool(armed) and v0 is not None and v0 in armed[1], "R3", "cleanup-armed-initially", prep.loc(bi),
+                        "a new FileWriter does not start in the state in which Drop removes the temp file (field %s = %s, Drop cleans under %s)" % (
+                            armed[0] if armed else "?", v0, sorted(map(str, armed[1])) if armed else "?"))
             # writer <- File::create(tmp_path)
             sl = flow.backward(prep, m["writer"], at=bi)
             creates = [(cb, t) for cb, t, _ in sl.calls if short(callee_def(t)) in ("create", "create_new") and "File" in callee_def(t)]
@@ -118,32 +123,99 @@ def rule_r3(chk, db, conf):
         chk.verdict("tmp_path" in f0 and "dest_path" in f1, "R3", "done.rename-direction", inner.loc(bi), "rename is not tmp_path -> dest_path (from %s to %s)" % (sorted(f0), sorted(f1)))
         o = flow.outcomes_of_call(inner, bi)
         cont = o.get("Continue") | o.get("Ok")
+        armed = cleanup_flag(db)
+        n_dis = 0
         for b2, si, st in inner.stmts():
             nmz = flow.proj_names(flow.norm_proj(st["dst"]["proj"]))
-            if nmz[-1:] == ["clean_tmp"]:
+            if armed and nmz[-1:] == [armed[0]]:
+                nv = _state_value(inner, st["rv"]["ops"][0]) if st["rv"]["k"] == "use" else (st["rv"].get("variant") if st["rv"]["k"] == "agg" else None)
+                if nv is not None and nv in armed[1]:
+                    continue        # (re-)arming is always safe
+                n_dis += 1
                 chk.verdict(bool(cont) and flow.must_pass(inner, [b2], cont), "R3", "done.clean_tmp-after-rename", inner.loc(b2),
-                            "clean_tmp is cleared on a path where the rename did not succeed: a failed commit would leave the temp file behind / skip cleanup")
+                            "the temp-file cleanup is switched off on a path where the rename did not succeed: a failed commit would leave the temp file behind")
+        chk.verdict(n_dis >= 1, "R3", "done.disarms-cleanup", inner.loc(), "done() never switches the cleanup off: Drop would delete... nothing, but the state "
+                    "machine of the writer is not the temp-then-rename one this rule understands", nontrivial=False)
         oks = [w["bi"] for w in flow.return_writes(inner) if w["kind"] == "Ok"]
         chk.verdict(bool(cont) and flow.must_pass(inner, oks, cont), "R3", "done.ok-only-after-rename", inner.loc(bi), "done() can return Ok without the rename having succeeded")
-    # Drop removes the temp file under clean_tmp
+    # Drop removes the temp file in the armed state
     drops = [b for b in fscore.fs_bodies(db) if b.impl_trait == "core::ops::drop::Drop" and "FileWriter" in b.impl_self]
     chk.floor("R3.drop", len(drops), 1, "Drop impl for FileWriter")
+    armed = cleanup_flag(db)
     for b in drops:
         rm = [(bi, t) for bi, t in b.calls() if short(callee_def(t)) == "remove_file"]
         ok = False
         for bi, t in rm:
             sl = flow.backward(b, t["args"][0], at=bi)
-            f = guards.dominating_facts(b, bi)
-            guarded = False
+            ok = ("FileWriter", "tmp_path") in sl.fields and bool(armed)
+        chk.verdict(ok, "R3", "drop-cleans-temp", b.loc(), "Drop for FileWriter does not remove tmp_path under a state field of the writer")
+
+
+def _state_value(body, op):
+    """value of a small state operand: True/False for a bool literal, the variant name for a unit enum variant"""
+    if op is None:
+        return None
+    c = flow.const_of(body, op)
+    if c is not None and c.get("c") == "int" and c.get("ty") == "bool":
+        return c.get("v") == "1"
+    p = flow.op_place(op)
+    df = flow.single_def(body, p["l"]) if p is not None and not p["proj"] else None
+    for _ in range(4):
+        if df is not None and df["kind"] == "assign" and df["rv"]["k"] == "use" and flow.op_place(df["rv"]["ops"][0]) is not None:
+            q = flow.op_place(df["rv"]["ops"][0])
+            df = flow.single_def(body, q["l"]) if not q["proj"] else None
+        else:
+            break
+    if df is not None and df["kind"] == "assign" and df["rv"]["k"] == "agg" and df["rv"].get("agg") == "adt":
+        return df["rv"].get("variant")
+    return None
+
+
+_FLAG = {}
+
+
+def cleanup_flag(db):
+    """(field name, set of values) such that Drop for FileWriter removes the temp file exactly when the field has one of these values:
+    found from the switch that guards remove_file in the Drop impl (a bool field, or a small enum field), whatever the field is called"""
+    if db.dir in _FLAG:
+        return _FLAG[db.dir]
+    res = None
+    for b in fscore.fs_bodies(db):
+        if b.impl_trait != "core::ops::drop::Drop" or "FileWriter" not in b.impl_self:
+            continue
+        for bi, t in b.calls():
+            if short(callee_def(t)) != "remove_file":
+                continue
             for s2 in b.live_blocks():
                 t2 = b.blocks[s2]["term"]
-                if t2["k"] == "switch":
-                    dsl = flow.backward(b, t2["discr"], at=s2)
-                    if ("FileWriter", "clean_tmp") in dsl.fields:
-                        tr = [(s2, lab) for lab, tb in b.succ_edges(s2) if lab != "0"]
-                        guarded = flow.must_pass(b, [bi], tr)
-            ok = ("FileWriter", "tmp_path") in sl.fields and guarded
-        chk.verdict(ok, "R3", "drop-cleans-temp", b.loc(), "Drop for FileWriter does not remove tmp_path under clean_tmp")
+                if t2["k"] != "switch":
+                    continue
+                dsl = flow.backward(b, t2["discr"], at=s2)
+                fs = [f for a, f in dsl.fields if a == "FileWriter" and f not in ("tmp_path", "dest_path", "writer")]
+                if len(fs) != 1:
+                    continue
+                edges = b.succ_edges(s2)
+                reaching = [(s2, lab) for lab, tb in edges if bi in flow.reach(b, [tb], stop_blocks=frozenset([s2]))]
+                if not reaching or len(reaching) == len(edges) or not flow.must_pass(b, [bi], reaching):
+                    continue
+                src = paths.switch_source(b, t2)
+                vals = set()
+                if src is not None and src[0] == "discr":
+                    dv = paths.discr_values(t2, src[1])
+                    for _, lab in reaching:
+                        v = dv.get(lab)
+                        if v is None:
+                            continue
+                        vals |= set(v[6:].split("|")) if v.startswith("OTHER:") else {v}
+                else:
+                    pol = src[2] if src is not None and src[0] in ("local", "call") and len(src) > 2 and isinstance(src[2], bool) else True
+                    bv = paths.bool_values(t2, pol)
+                    vals = {bv.get(lab) for _, lab in reaching} - {None}
+                if vals:
+                    res = (fs[0], vals)
+    _FLAG.clear()
+    _FLAG[db.dir] = res
+    return res
 
 
 def rule_r4(chk, db, conf):
